@@ -45,6 +45,7 @@ Accepts(ev) ==
     [] ev.e = "stall" -> G("C10", "NoStall", FALSE)
     [] ev.e = "panic" -> G("C10", "NoPanicInLegalState", FALSE)
     [] ev.e = "crash" -> G("C10", "NoCrash", FALSE)
+    [] ev.e = "hang" -> G("C10", "EveryCallReturns", FALSE)
     [] OTHER -> G("C10", "UnmatchableEvent", FALSE)
 
 U(xs) == UNCHANGED xs
